@@ -101,6 +101,9 @@ def _unformatted(tag, mods):
 
 
 CLASSES = ["F", "U", "C", "N", "B", "D"]
+# files without a single token: explored in the named states of every tree (both tiers), not in the full product
+EXTRA_CLASSES = ["E", "W"]
+ALL_CLASSES = CLASSES + EXTRA_CLASSES
 CLASS_DOC = {
     "F": "formatted",
     "U": "needs a rewrite",
@@ -108,6 +111,8 @@ CLASS_DOC = {
     "N": "formatted, no final newline",
     "B": "formatted + two trailing blank lines",
     "D": "needs a rewrite, CRLF line endings",
+    "E": "no items at all (zero bytes, or only the module declarations the tree needs)",
+    "W": "no items, three blank lines",
 }
 
 
@@ -126,6 +131,10 @@ def content(tag, mods, cls):
         s = f + "\n\n"
     elif cls == "D":
         s = u.replace("\n", "\r\n")
+    elif cls == "E":
+        s = "".join(f"mod {m};\n" for m in mods)
+    elif cls == "W":
+        s = "".join(f"mod {m};\n" for m in mods) + "\n\n\n"
     else:
         raise ValueError(cls)
     return s.encode()
@@ -157,7 +166,7 @@ TREES = {
 LABEL = {}
 for _t in TREES.values():
     for (_rel, _tag, _mods, _role) in _t.files:
-        for _c in CLASSES:
+        for _c in ALL_CLASSES:
             LABEL.setdefault(content(_tag, _mods, _c), _c)
 
 
@@ -786,6 +795,11 @@ def named_states(tree):
         out.append(tuple(c + "F" * (n - 1)))
         if n > 1:
             out.append(tuple("F" * (n - 1) + c))
+    for c in EXTRA_CLASSES:
+        out.append(tuple(c + "F" * (n - 1)))
+        if n > 1:
+            out.append(tuple("F" * (n - 1) + c))
+            out.append(tuple("U" + c * (n - 1)))
     seen, res = set(), []
     for s in out:
         if s not in seen:
@@ -814,9 +828,10 @@ def build_space(thorough):
         tree = TREES[tname]
         n = len(tree.files)
         if thorough:
-            states = sorted(itertools.product(CLASSES, repeat=n), key=lambda s: (deviation(s), [CLASSES.index(c) for c in s]))
+            states = list(itertools.product(CLASSES, repeat=n)) + [st for st in named_states(tree) if any(c in EXTRA_CLASSES for c in st)]
+            states = sorted(states, key=lambda s: (deviation(s), [ALL_CLASSES.index(c) for c in s]))
         else:
-            states = sorted(named_states(tree), key=lambda s: (deviation(s), [CLASSES.index(c) for c in s]))
+            states = sorted(named_states(tree), key=lambda s: (deviation(s), [ALL_CLASSES.index(c) for c in s]))
         for st in states:
             for cfg in CFGS:
                 if cfg == "default":
@@ -848,7 +863,7 @@ def warm_reference():
     todo = []
     for t in TREES.values():
         for (_rel, tag, mods, _role) in t.files:
-            for c in CLASSES:
+            for c in ALL_CLASSES:
                 for cfg in CFGS:
                     todo.append((content(tag, mods, c), cfg))
     outs = common.parallel_map(lambda x: reference(*x), todo)
